@@ -142,7 +142,7 @@ def handle (l : Line) : IO Unit := do
     if kind == "p" then
       if let some pe := perr then
         let s := match pe with
-          | .fixedConfig => "fixedconfig" | .unitKey => "unit" | .emptyKey => "emptykey"
+          | .unknownOrder => "unknownorder" | .fixedConfig => "fixedconfig" | .unitKey => "unit" | .emptyKey => "emptykey"
         IO.println s!"obs {id} new=ok perr={s}"
         return
     let excl := fullnameKeysOf projs
